@@ -15,10 +15,10 @@ func init() {
 	register(&Prop{
 		ID:       "C01",
 		Category: "model_checking",
-		Rule: "for every writer setting: (a) every string over {a,b} up to length 10 and {a,b,c} up to 6, and every content kind at every size of a dense ladder 0..300 plus windows around each internal threshold, as one Write + Close; " +
+		Rule: "for every writer setting: (a) every string over {a,b} up to length 10 (14 thorough) and {a,b,c} up to 6 (9), and every content kind at every size of a dense ladder 0..300 plus windows around each internal threshold, as one Write + Close; " +
 			"(a') for the accelerated settings every ramp(k), k=1..300 (k consecutive byte values: every non-zero run length of the header's run-length coder), gap(k), k=1..255 (every zero run length) and Fibonacci-distributed alphabets of 2..40 symbols (Huffman depth beyond 15: length limiting), every period 1..64 at three sizes (long matches at every small distance), 48 variants of back-to-back far copies (tokens with the maximal number of extra bits); " +
 			"(a'') token-cap straddle: incompressible / text prefixes of every length in [32690,32810) and [65400,65600) followed by a long run, a period-7 run or text, so that the last tokens of a full block are of every kind; " +
-			"(b) every sequence over {Write(piece), Flush}^<=d followed by Close with pieces chosen to hit the buffer-fill, slide, block-cap and wrap situations; " +
+			"(b) every sequence over {Write(piece), Flush}^<=d (d = 2 quick, 4 thorough) followed by Close with pieces chosen to hit the buffer-fill, slide, block-cap and wrap situations; " +
 			"non-trivial = the execution produced at least one compressed block from more than 8 bytes of data or contains a Flush",
 		Assumptions: []string{"compress/flate is a correct inflater", "the reference inflater is correct (self-checked against compress/flate on every valid stream)"},
 		Quick:       TierSpec{MaxDev: -1, Merge: false, Shards: 4, ShardDepth: 3, BudgetS: 150},
@@ -54,7 +54,7 @@ func sizeLadder(k WK, thorough bool) []int {
 	}
 	w := 9
 	if thorough {
-		w = 17
+		w = 33
 	}
 	for _, t := range thresholds(k) {
 		for n := t - w; n <= t+w; n++ {
@@ -85,14 +85,14 @@ func c01Harness(cfg *Cfg) func(x *mc.Exec) {
 	kinds := allFlateKinds(cfg.Thorough)
 	var tiny [][]byte
 	if cfg.Thorough {
-		tiny = append(pieces.Tiny(2, 12), pieces.Tiny(3, 8)...)
+		tiny = append(pieces.Tiny(2, 14), pieces.Tiny(3, 9)...)
 	} else {
 		tiny = append(pieces.Tiny(2, 10), pieces.Tiny(3, 6)...)
 	}
 	contentKinds := []string{"zero", "rand", "r3", "text", "per7", "fib", "runs258"}
 	depth := 2
 	if cfg.Thorough {
-		depth = 3
+		depth = 4
 	}
 	maxLen := 262145
 	cache := map[string][]byte{}
